@@ -493,6 +493,15 @@ func runC07B(args []string) error {
 			}
 		}
 	}
+	// shards of 2 MiB and more in one kernel call (>= 65536 SIMD blocks: a 16-bit loop counter would wrap), one goroutine
+	for _, cs := range []c07Case{
+		{Coder: "cauchy", D: 3, P: 2, AvailD: []int{2, 3}, AvailP: []int{2}, Expect: "none"},
+		{Coder: "vandermonde", D: 3, P: 2, AvailD: []int{1}, AvailP: []int{1, 2}, Expect: "none"},
+	} {
+		if err := rsRound(lg, rng, cs, 2097152+70, 1, false); err != nil {
+			return err
+		}
+	}
 	if c.tier == "thorough" {
 		// near the documented limits
 		for _, cs := range []c07Case{
